@@ -71,6 +71,8 @@ class Translator:
         self.ctor_decls = {}
         self.locals, self.ref_locals, self.alias = {}, set(), {}
         self.pre, self.no_hoist, self.called = [], False, False
+        self.post = []
+        self.var_types = {}
         self.rec_decls = {}
         self.global_arrays = {}
         self.global_fn_deps = set()
@@ -705,7 +707,7 @@ class Translator:
         pt = param['type']['qualType'] if isinstance(param, dict) else param
         x = self.e(a)
         if self.by_pointer(pt):
-            return self.addr(a, x)
+            return self.addr(a, x, mutable=('const' not in pt))
         return x
 
     def by_pointer(self, pt):
@@ -717,13 +719,23 @@ class Translator:
             return False
         return True
 
-    def addr(self, a, x):
+    def addr(self, a, x, mutable=True):
         if self.binds_temporary(a):
             return self.hoist(a, x)
-        if a.get('valueCategory') == 'lvalue' or self._lvalue_text(x):
-            if x.startswith('(*') and x.endswith(')') and self._balanced(x[2:-1]):
-                return x[2:-1]
+        if x.startswith('VEC_AT(') and self._balanced(x[7:-1]) and x.endswith(')'):
+            # address of an element of an unbounded (SMT array) vector: CBMC cannot form it; the element is
+            # copied into a local for the duration of the statement and copied back afterwards
+            ptr = self.hoist(a, x)
+            if mutable:
+                self.post.append('%s = %s;' % (x, ptr[1:]))
+            return ptr
+        if x.startswith('(*') and x.endswith(')') and self._balanced(x[2:-1]):
+            return x[2:-1]
+        if self._lvalue_text(x) or re.match(r'(OPT_VAL\(|\(?[A-Za-z_]\w*(\.|->))', x) and not re.search(r'\w\(', x.replace('OPT_VAL(', '')):
             return '&' + x
+        if a.get('valueCategory') == 'lvalue' and not re.match(r'[A-Za-z_]\w*\(', x):
+            return '&' + x
+        # a call translated as returning by value (const T& results), or any other non-addressable expression
         return self.hoist(a, x)
 
     def hoist(self, a, x):
@@ -797,9 +809,12 @@ class Translator:
                 '&' + o if self._lvalue_text(o) else None)
         cn = self.fn_cname(ref)
         if cn:
+            dm = self.full_decl(ref)
+            if o.startswith('VEC_AT(') and not me.get('isArrow'):
+                ptr = self.addr(obj, o, mutable=not dm['type']['qualType'].rstrip().endswith('const'))
             if ptr is None:
                 ptr = self.hoist(obj, o)
-            return self.call_extracted(cn, self.full_decl(ref), ptr, i[1:])
+            return self.call_extracted(cn, dm, ptr, i[1:])
         return self.lib_call(n, me.get('name'), self.full_decl(ref), (obj, o, ptr), i[1:])
 
     def inline_lambda(self, n, call, args):
@@ -848,7 +863,7 @@ class Translator:
         if cn:
             if d['kind'] == 'CXXMethodDecl':
                 o = self.e(args[0])
-                ptr = self.addr(args[0], o)
+                ptr = self.addr(args[0], o, mutable=not d['type']['qualType'].rstrip().endswith('const'))
                 return self.call_extracted(cn, d, ptr, args[1:])
             return self.call_extracted(cn, d, None, args)
         return self.lib_call(n, name, d, None, args, operator=True)
@@ -912,6 +927,14 @@ class Translator:
                     return '%sa[ARR_IDX(%s, %d)]' % (self._arrow(A(0)), A(1), kd[2] if kd else 0)
                 if fam in ('std::vector', 'vector', 'std::basic_string', 'std::basic_string_view'):
                     return 'VEC_AT(%s, %s)' % (A(0), A(1))
+            if name == 'operator=' and fam in ('std::optional', 'optional'):
+                rt_ = (args[1]['type'].get('desugaredQualType') or args[1]['type']['qualType'])
+                if 'nullopt_t' in rt_:
+                    return '(%shas = 0)' % self._arrow(A(0))
+                ok = self.tm.kinds.get(self.tm.tname(args[0]['type']).rstrip(' *').rstrip())
+                if ok and self.tm.tname(args[1]['type']).rstrip(' *').rstrip() == ok[1]:
+                    return 'OPT_SET(%s, %s)' % (A(0), A(1))
+                return '%s = %s' % (A(0), A(1))
             if name == 'operator=' :
                 ct = self.tm.tname(args[0]['type'])
                 if ct == 'c_opaque':
@@ -1156,6 +1179,7 @@ class Translator:
         k = n['kind']
         inner = [x for x in n.get('inner', []) if x]
         saved, self.pre = self.pre, []
+        saved_post, self.post = self.post, []
         at = len(self.lines)
         m = getattr(self, 's_' + k, None)
         if m is not None:
@@ -1167,7 +1191,13 @@ class Translator:
         if self.pre:
             ind = re.match(r' *', self.lines[at]).group(0) if at < len(self.lines) else '    ' * self.ind
             self.lines[at:at] = [ind + p for p in self.pre]
+        if self.post:
+            if k in ('ReturnStmt', 'IfStmt', 'ForStmt', 'WhileStmt', 'DoStmt', 'SwitchStmt', 'CXXForRangeStmt'):
+                self.abort(n, 'vector element passed by reference from a control-flow statement')
+            ind = '    ' * self.ind
+            self.lines += [ind + p for p in self.post]
         self.pre = saved
+        self.post = saved_post
 
     def s_expr(self, n):
         x0 = n
@@ -1304,6 +1334,7 @@ class Translator:
             self.out('%s %s = %s;' % (ct, name, self.addr(init[-1], tgt)))
             return
         ct = self.ty(v)
+        self.var_types[name] = ct
         if v['id'] in self.exported:
             # local of the sliced region that the slice hands back: assignment to the out-parameter
             en = self.exported[v['id']]
@@ -1547,6 +1578,9 @@ class Translator:
             self.out('VERIF_OBL(%s, "%s/invariant %s base");' % (ex, tag, nm))
         for a in c.get('assigns', []):
             self.out('VERIF_HAVOC(%s);' % a)
+            v = self.tm.valid_for(a, self.var_types)
+            if v:
+                self.out('__CPROVER_assume(%s);   /* type invariant of the havocked object */' % v)
         for nm, ex in c['invariant']:
             self.out('__CPROVER_assume(%s);' % ex)
         self.out('{')
@@ -1705,15 +1739,17 @@ class Translator:
         self.lines, self.ind, self.brk = [], 0, []
         self.called = False
         self.pre, self.no_hoist = [], False
+        self.post = []
         self.ghost_used = set()
         self.exported = {}
         self.cur_body = d
         self.builder_ids = set()
         self.lambdas = {}
+        self.var_types = {}
         rt = d['type']['qualType']
         p = rt.find('(')
         rts = rt[:p].strip()
-        is_method = d['kind'] in ('CXXMethodDecl', 'CXXConstructorDecl') and not self.is_static(d)
+        is_method = d['kind'] in ('CXXMethodDecl', 'CXXConstructorDecl', 'CXXConversionDecl') and not self.is_static(d)
         if d['kind'] == 'CXXConstructorDecl':
             f.ret = 'void'
             self.ret_is_ref = False
@@ -1725,7 +1761,7 @@ class Translator:
                 self.ret_is_ref = False
                 f.ret = f.ret.rstrip(' *').rstrip()
         self.cur_record = None
-        if d['kind'] in ('CXXMethodDecl', 'CXXConstructorDecl'):
+        if d['kind'] in ('CXXMethodDecl', 'CXXConstructorDecl', 'CXXConversionDecl'):
             self.cur_record = self.class_of(d)
         if is_method:
             st = self.method_self_type(d)
@@ -1733,6 +1769,7 @@ class Translator:
                 raise ExtractError('cannot find the class of method ' + f.qual)
             f.self_type = st
             f.params.append((st + ' *', 'self', True))
+            self.var_types['self'] = st + ' *'
         for pd in d.get('inner', []):
             if pd.get('kind') != 'ParmVarDecl':
                 continue
@@ -1748,6 +1785,7 @@ class Translator:
                 if qt.rstrip().endswith('&'):
                     ct = ct.rstrip(' *')
                 f.params.append((ct, name, False))
+            self.var_types[name] = f.params[-1][0]
         body = [x for x in d.get('inner', []) if x.get('kind') == 'CompoundStmt']
         if not body:
             raise ExtractError('no body for ' + f.qual)
@@ -1857,11 +1895,13 @@ class Translator:
         self.lines, self.ind, self.brk = [], 0, []
         self.called = False
         self.pre, self.no_hoist = [], False
+        self.post = []
         self.ghost_used = set()
         self.exported = {}
         self.cur_body = d
         self.builder_ids = set()
         self.lambdas = {}
+        self.var_types = {}
         self.cur_record = None
         self.ret_is_ref = False
         f.ret = 'void'
@@ -1944,7 +1984,10 @@ class Translator:
         if strip_cv(b) == b:
             return False
         try:
-            return self.tm.c(b) in SCALAR_C
+            ct = self.tm.c(b)
+            # const T& results are returned by value for scalars and for modelled aggregates (a pointer into an
+            # unbounded SMT array cannot be formed); callers re-evaluate the call where they bind a reference
+            return ct in SCALAR_C or ct in self.tm.kinds
         except ExtractError:
             return False
 
